@@ -102,6 +102,7 @@ pub fn jobs(tier: Tier) -> Vec<Job> {
         }
     }
     rs::rs_syndrome_prefix(tier, &mut jobs);
+    rs::rs_hankel_profile(tier, &mut jobs);
     // 10x10 ball
     for pos in 0..8 {
         for val in 1..=255u8 {
@@ -120,7 +121,7 @@ pub fn jobs(tier: Tier) -> Vec<Job> {
 
 pub fn job_size(job: &Job) -> usize {
     match job {
-        Job::Single { si, .. } | Job::Subsets { si, .. } | Job::Burst { si, .. } | Job::Spread { si, .. } | Job::AllBlocks { si, .. } | Job::LeadingZero { si, .. } | Job::Supercode { si, .. } | Job::SyndromeAlphabet { si, .. } | Job::ZeroRange { si, .. } | Job::SyndromePrefix { si, .. } | Job::Phantom { si, .. } | Job::ErrorsPlusZeroPrefix { si, .. } | Job::HankelSingular { si, .. } => *si,
+        Job::Single { si, .. } | Job::Subsets { si, .. } | Job::Burst { si, .. } | Job::Spread { si, .. } | Job::AllBlocks { si, .. } | Job::LeadingZero { si, .. } | Job::Supercode { si, .. } | Job::SyndromeAlphabet { si, .. } | Job::ZeroRange { si, .. } | Job::SyndromePrefix { si, .. } | Job::Phantom { si, .. } | Job::ErrorsPlusZeroPrefix { si, .. } | Job::HankelSingular { si, .. } | Job::HankelProfile { si, .. } => *si,
         Job::Ball10 { .. } => 0,
     }
 }
@@ -143,7 +144,7 @@ pub fn run(ctx: &Ctx) -> i32 {
         "rule": format!("received words around and beyond the correction radius for all 48 sizes: single errors; bursts/spread/all-blocks patterns of weight t, t+1, t+2, 2t+1; all position subsets of size t+1, t+2 \
 for the sizes with <= 24 codewords; the leading-zero family c + m*x^s*prod_(i<=j)(x-2^i), j = 1..k-1 (first j syndromes zero); for the sizes with an odd number of error codewords ({}) the supercode family \
 c + e + v*x^s*prod_(i<=2t)(x-2^i) with e of weight 0..2 (exactly the words a decoder ignoring the last syndrome would wave through); the zero-range family c + v*x^s*prod_(a<=i<=b)(x-2^i) (syndromes a..b vanish); one or two real errors plus a pattern whose first t+v syndromes vanish; phantom errors (the syndromes of errors at locations n..254 outside the shortened block, alone, in pairs and with one real error); \
-for the six sizes with <= 12 error codewords every syndrome vector over a small alphabet (0 and powers of 2; 16^5 for 10x10), realised as an error on the EC positions - the decoder's own state space; 10x10: {}. Distinct by construction; non-trivial = more errors than floor(k/2) in some block. \
+syndrome vectors enumerated by Hankel singularity profile (depth-first over S_1..S_(2d-1), d = 5..7, three values per syndrome of which one makes the leading minor H_j singular whenever that is possible, two tails: every sequence of regular and singular steps of the locator computation up to depth d); for the six sizes with <= 12 error codewords every syndrome vector over a small alphabet (0 and powers of 2; 16^5 for 10x10), realised as an error on the EC positions - the decoder's own state space; 10x10: {}. Distinct by construction; non-trivial = more errors than floor(k/2) in some block. \
 Oracle: whenever decode_error returns Ok, all syndromes of every block of the returned word vanish in R1 and encode_error(data part) equals its EC part.", odd.join(", "),
             if ctx.tier == Tier::Thorough { "all words within Hamming distance 3 of the zero codeword" } else { "all words within distance 2 of the zero codeword, distance 3 over an 8-value alphabet around an LCG codeword" }),
         "exhaustive": true,
